@@ -206,14 +206,19 @@ def proto_names(run: Run):
     # recorded(mods, t): the package of t is among the packages recorded for t's module name
     m.add_spec("recorded", ["mods", "t"], "t.ident.module in mods and t.ident.package in mods[t.ident.module]")
     inv_out = "forall(lambda i: forall(lambda t: recorded(modules, t), self.all_messages.values()[i].recursive_field_types), 0, {k})"
+    names_inv = ("forall(lambda i: self.all_messages.values()[i].name in answer and "
+                 "forall(lambda f: f.name in answer, self.all_messages.values()[i].fields.values()), 0, {k})")
     c = Contract("Proto.names", source=("gapic/schema/api.py", "Proto.names"), params={"self": "Proto"}, result="Set[Str]",
                  locals={"answer": "Set[Str]", "modules": "Map[Str,Set[Seq[Str]]]"},
                  ensures=["forall(lambda m1: forall(lambda m2: forall(lambda t1: forall(lambda t2: implies(t1.ident.module == t2.ident.module and "
                           "t1.ident.package != t2.ident.package, t1.ident.module in result), m2.recursive_field_types), m1.recursive_field_types), "
                           "self.all_messages.values()), self.all_messages.values())",
                           "forall(lambda m1: forall(lambda t1: implies(t1.ident.module in RESERVED_NAMES, t1.ident.module in result), m1.recursive_field_types), "
-                          "self.all_messages.values())"],
-                 invariants={"for#1": ["True"],
+                          "self.all_messages.values())",
+                          # the names a module alias must not clash with: every message of the file - nested ones included - and every field of each
+                          "forall(lambda i: self.all_messages.values()[i].name in result and "
+                          "forall(lambda f: f.name in result, self.all_messages.values()[i].fields.values()), 0, len(self.all_messages.values()))"],
+                 invariants={"for#1": [names_inv.format(k="_k")],
                              "for#2": [inv_out.format(k="_k")],
                              "for#3": [inv_out.format(k="_k2"), "forall(lambda i: recorded(modules, m.recursive_field_types[i]), 0, _k)"]})
     m.add_contract(c)
